@@ -418,7 +418,7 @@ def mutate(rng, s, num_not_dec, zeros):
     if k == 11:
         return ins(str(rng.randrange(10)) * rng.choice([4290, 4299, 4300, 4301, 5000]))
     if k == 12:
-        return ins("'" + rng.choice("'hp"))
+        return ins(rng.choice("'hp") + rng.choice("'hp") + rng.choice(["", "", "'", "h", "p"]))
     return ins(chr(rng.randrange(0x110000)) if rng.random() < 0.5 else chr(rng.randrange(0x3000)))
 
 
@@ -477,7 +477,8 @@ def generate(ctx):
     ctx.note_exhaustive("parser: every numeric-but-not-decimal code point (%d) as an element; every decimal script "
                         "(%d); every white-space code point (%d) in 7 positions" % (len(num_not_dec), len(zeros), len(spaces)))
     directed_paths = ["", "m", "/", "//", "m/", "/m", "m//", "mm", "M", "m/m", " m", "m ", "m/0", "0", "0/", "/0", "0'", "0h",
-                      "0p", "0H", "0''", "0'h", "'", "h", "p", "m/'", "m/ ", "m/ /0", "m/0/ ", "m/-0", "m/+0", "m/1_0",
+                      "0p", "0H", "0''", "0'h", "0h'", "0p'", "0ph", "0hp", "0'p", "0ph'", "0hh", "0pp", "m/1h'/2", "m/7/3p'",
+                      "'", "h", "p", "m/'", "m/ ", "m/ /0", "m/0/ ", "m/-0", "m/+0", "m/1_0",
                       "m/0x1", "m/1.0", "m/1e1", "m/²", "m/1²", "m/²'", "m/½", "m/一", "m/0/²/x", "m/x/²", "m/²/x",
                       "m/4294967295", "m/4294967296", "m/2147483647'", "m/2147483648'", "m/2147483648", "m/4294967295'",
                       "m/4294967296'", "m/0000000000000000000000001", "m/" + "0" * 4300, "m/" + "0" * 4301,
